@@ -55,8 +55,9 @@ VARIABLES pc, h,                 \* next operation: Steps[pc] of height h (volat
           published,             \* history: <<height, type, value>> made public before a crash
           committed,             \* history: heights this validator decided (SaveBlock done)
           lastSign,              \* history: the last signature request <<h, type, v>> after a restart
-          crashes, rec           \* history: number of crashes; the last recovery outcome
-vars == <<pc, h, wal, blocks, apphash, flushed, head, cstate, restored, published, committed, lastSign, crashes, rec>>
+          crashes, rec,          \* history: number of crashes; the last recovery outcome
+          torn                   \* durable: the WAL ends in a record that reached the disk only in part
+vars == <<pc, h, wal, blocks, apphash, flushed, head, cstate, restored, published, committed, lastSign, crashes, rec, torn>>
 
 Types == {"prevote", "precommit"}
 NoRec == [head |-> -1, state |-> -1, resume |-> -1, replay |-> FALSE]
@@ -65,6 +66,7 @@ Init == /\ pc = 1 /\ h = 1
         /\ wal = <<[k |-> "end", h |-> 0, v |-> "-"]>>
         /\ blocks = {} /\ apphash = {0} /\ flushed = {0} /\ head = 0 /\ cstate = {0}
         /\ restored = {} /\ published = {} /\ committed = {} /\ lastSign = <<>> /\ crashes = 0 /\ rec = NoRec
+        /\ torn = FALSE
 
 Val(t) == IF \E x \in restored : x[1] = t THEN (CHOOSE x \in restored : x[1] = t)[2] ELSE "free"
 \* a vote of type t is signed and its record synced: the value the process remembers (from this life or
@@ -96,7 +98,8 @@ Step ==
                                 /\ restored' = {}            \* updateToState: next height
                                 /\ UNCHANGED <<wal, blocks, apphash, flushed, head, published, committed, lastSign>>
   /\ IF pc = Len(Steps) THEN pc' = 1 /\ h' = h + 1 ELSE pc' = pc + 1 /\ h' = h
-  /\ UNCHANGED <<crashes, rec>>
+  /\ ~torn           \* nothing is ever appended behind a torn record (see Recover)
+  /\ UNCHANGED <<crashes, rec, torn>>
 
 MaxOf(S) == CHOOSE x \in S : \A y \in S : y <= x
 HasEnd(w, k) == \E i \in 1..Len(w) : w[i].k = "end" /\ w[i].h = k
@@ -119,6 +122,10 @@ CrashRecover ==
         /\ restored' = IF r.replay THEN votes ELSE {}
         /\ rec' = r
         /\ crashes' = crashes + 1
+        \* the unsynced record being written when the process died may be torn; OnStart detects the
+        \* DataCorruptionError during catchupReplay, repairs the file (longest valid prefix: the torn record held
+        \* no synced data) and only then opens the WAL for appending — torn is FALSE again when Step resumes
+        /\ torn' = FALSE
   /\ UNCHANGED <<wal, apphash, flushed, cstate, published, committed, lastSign>>
 
 Next == Step \/ CrashRecover
@@ -133,6 +140,10 @@ DumpCrash == crashes' = crashes \/
              PrintT(ToJson([mode |-> IF FlushEvery THEN "flush" ELSE "memory", h |-> h, step |-> Steps[pc],
                             head |-> rec'.head, state |-> rec'.state, resume |-> rec'.resume, replay |-> rec'.replay,
                             exposed |-> Cardinality(Exposed(rec'))]))
+
+\* the WAL is a sequence of intact records whenever the validator appends to it (checked on the real files by
+\* decoding the whole log the recovered validator leaves behind; tail variant "torn" of the crash sweep)
+WalIntactWhenWriting == ~torn
 
 (******************************* property C05 *******************************)
 \* never signs a vote that conflicts with one it had published before the crash
